@@ -86,6 +86,13 @@ def _walk_own(fnode):
         stack.extend(ast.iter_child_nodes(n))
 
 
+class ObjVal:
+    """instance of a small repository class: the fields its constructor stored, values of cached properties"""
+
+    def __init__(self, cls, fields):
+        self.cls, self.fields, self.cache = cls, fields, {}
+
+
 class TensorEval:
     def __init__(self, prog, cls, seeds):
         if np is None:
@@ -422,6 +429,8 @@ class TensorEval:
             if isinstance(c_, (bool, int, np.bool_, np.integer, list, tuple, range, dict, str)) or c_ is None:
                 return self.ev(f, e.body if c_ else e.orelse, env)          # python containers: true when not empty
             raise Unknown('conditional on a symbolic value')
+        if isinstance(e, ast.Attribute) and isinstance(e.value, ast.Name) and isinstance(env.get(e.value.id), ObjVal) and isinstance(e.ctx, ast.Load):
+            return self.obj_attr(env[e.value.id], e.attr)
         if isinstance(e, ast.Attribute) and isinstance(e.value, ast.Name) and e.value.id in ('_np', 'np', 'numpy') and e.value.id not in env:
             if e.attr in ('inf', 'nan', 'pi', 'newaxis', 'int32', 'int64', 'uint8', 'uint32', 'float32', 'float64', 'bool_', 'r_', 'integer'):
                 return getattr(np, e.attr)
@@ -471,6 +480,43 @@ class TensorEval:
         if isinstance(e, ast.Call):
             return self.call(f, e, env)
         raise Unknown(f'expression {t[:50]}')
+
+    # ---- small value objects of the repository (a constructor storing its arguments, properties computed from them)
+    def make_object(self, ci, args, kw):
+        init = self.prog.resolve_method(ci, '__init__')
+        if init is None or self.depth > 3:
+            raise Unknown(f'constructor of {ci.name}')
+        sub = TensorEval(self.prog, ci, {})
+        sub.summaries, sub.numeric, sub.call_hook, sub.strict_if = self.summaries, self.numeric, self.call_hook, self.strict_if
+        ps = [p_ for p_ in init.params if p_ != 'self']
+        if len(args) > len(ps) or any(k_ not in ps for k_ in kw):
+            raise Unknown(f'arguments of {ci.name}')
+        bind = dict(zip(ps, args))
+        bind.update(kw)
+        sub.run(init, bind)
+        fields = {k_[5:]: v_ for k_, v_ in sub.last_env.items() if isinstance(k_, str) and k_.startswith('self.') and '.' not in k_[5:] and '[' not in k_}
+        return ObjVal(ci, fields)
+
+    def obj_attr(self, o, name):
+        if name in o.fields:
+            return o.fields[name]
+        if name in o.cache:
+            return o.cache[name]
+        g = self.prog.resolve_getter(o.cls, name)
+        cached = False
+        if g is None:
+            m = self.prog.resolve_method(o.cls, name)
+            if m is not None and any(norm(d).split('.')[-1].lstrip('_') == 'cached_property' for d in m.node.decorator_list):
+                g, cached = m, True
+        if g is None or self.depth > 3:
+            raise Unknown(f'attribute {name} of a {o.cls.name}')
+        sub = TensorEval(self.prog, o.cls, {f'self.{k_}': v_ for k_, v_ in o.fields.items()})
+        sub.summaries, sub.numeric, sub.call_hook, sub.strict_if = self.summaries, self.numeric, self.call_hook, self.strict_if
+        sub.depth = self.depth + 1
+        v = sub.run(g, {})
+        if cached:
+            o.cache[name] = v
+        return v
 
     call_hook = None          # optional: (call node, Func, env, evaluator) -> value or NotImplemented
     strict_if = False         # True: a branch condition that cannot be evaluated aborts the interpretation (exact evaluation of plumbing code)
@@ -543,6 +589,10 @@ class TensorEval:
                 args.extend(sv_)
             else:
                 args.append(self.ev(f, a, env))
+        if isinstance(fn, (ast.Name, ast.Attribute)) and name not in self.summaries and not (isinstance(fn, ast.Name) and fn.id in env) and not np_call:
+            r_ = self.prog.resolve(f.mod, fn) if not (isinstance(fn, ast.Attribute) and norm(fn.value) == 'self') else None
+            if r_ and r_[0] == 'class' and self.prog.resolve_method(r_[1], '__init__') is not None and not r_[1].ext_bases:
+                return self.make_object(r_[1], args, kw)
         if isinstance(fn, ast.Attribute) and fn.attr == 'indices' and len(args) == 1 and isinstance(args[0], (int, np.integer)) and not kw:
             try:
                 recv_ = self.ev(f, fn.value, env)
